@@ -440,7 +440,8 @@ def _mix_limits(rng, v0, lo, hi):
     gap = 10.0 ** rng.uniform(-8, -2)
     lo[j] = v0[j] - gap * rng.random()
     hi[j] = lo[j] + gap
-    big = 10.0 ** rng.uniform(4, 13)
+    big = 10.0 ** (rng.uniform(4, 13) if rng.random() < 0.8
+                   else rng.uniform(150, 300))
     lo[k], hi[k] = [(-big, big), (-INF, big), (-big, INF)][
         int(rng.integers(3))]
 
